@@ -3,9 +3,98 @@ import ShelxModel.C20
 open Lean Shelx.J
 
 namespace Shelx.Drv.C20
+open Shelx.C20
+
+/-- the `Float` instance of what `jacobi` needs (`fabs`, `sqrt`, comparisons, `0.5`, `1.0e-12`) -/
+def fops : JOps Float :=
+  { abs := Float.abs, sqrt := Float.sqrt, lt := fun a b => a < b, le := fun a b => a ≤ b,
+    isZero := fun a => a == 0.0, half := 0.5, eps := 1.0e-12 }
+
+def pt (j : Json) : Except String (P3 Float) := do
+  match ← floats j with
+  | [x, y, z] => return ⟨x, y, z⟩
+  | _ => err "expected [x,y,z]"
+
+def pts (j : Json) (k : String) : Except String (List (P3 Float)) := do
+  (← arrField j k).mapM pt
+
+def quat (j : Json) : Except String (Q4 Float) := do
+  match ← floats j with
+  | [a, b, c, d] => return ⟨a, b, c, d⟩
+  | _ => err "expected [q0,q1,q2,q3]"
+
+def ofP (p : P3 Float) : Json := ofFloats [p.x, p.y, p.z]
+def ofPs (l : List (P3 Float)) : Json := Json.arr (l.map ofP).toArray
+def ofM (u : M3 Float) : Json := ofFloats [u.m00, u.m01, u.m02, u.m10, u.m11, u.m12, u.m20, u.m21, u.m22]
+def ofS (n : S4 Float) : Json := ofFloats [n.n00, n.n01, n.n02, n.n03, n.n11, n.n12, n.n13, n.n22, n.n23, n.n33]
+def ofQ (q : Q4 Float) : Json := ofFloats [q.q0, q.q1, q.q2, q.q3]
+
+def fitU (p q : List (P3 Float)) : Option (M3 Float) := (qtrfit fops p q 30).map (·.2)
+
+def fragJson : Option (List (P3 Float) × Float) → Json
+  | none => Json.null
+  | some (l, r) => Json.mkObj [("coords", ofPs l), ("rms", ofFloat r)]
 
 def handle (j : Json) : Except String Json := do
   let op ← strField j "op"
-  err s!"C20: unknown op {op}"
+  match op with
+  | "fit" =>
+    -- model of qtrfit(src, tgt, sweeps): the 4×4 form, the Jacobi result, quaternion and returned matrix
+    let src ← pts j "src"
+    let tgt ← pts j "tgt"
+    let sweeps ← natField j "sweeps"
+    match qform src tgt with
+    | none => return Json.mkObj [("ok", Json.bool false), ("why", Json.str "IndexError")]
+    | some n =>
+      match jacobi fops n sweeps with
+      | none => return Json.mkObj [("ok", Json.bool false), ("why", Json.str "ZeroDivisionError"), ("N", ofS n)]
+      | some st =>
+        let q : Q4 Float := ⟨st.v 0 3, st.v 1 3, st.v 2 3, st.v 3 3⟩
+        return Json.mkObj [("ok", Json.bool true), ("N", ofS n), ("q", ofQ q), ("U", ofM (transpose (q2mat q))),
+                           ("evals", ofFloats [st.d 0, st.d 1, st.d 2, st.d 3])]
+  | "cert" =>
+    -- specification side for a quaternion `q` handed in (the implementation's): Rayleigh quotient, residual,
+    -- Sylvester pivots of (λ+δ)·1 − N, both sides of Horn's identity, qᵀNq for sample quaternions
+    let src ← pts j "src"
+    let tgt ← pts j "tgt"
+    let q ← field j "q" >>= quat
+    let delta ← floatField j "delta"
+    let samples ← (← arrField j "samples").mapM quat
+    let pairs := src.zip tgt
+    let n := qformPairs pairs
+    let lam := quad n q
+    let nq := mulQ n q
+    let r : Q4 Float := ⟨nq.q0 - lam * q.q0, nq.q1 - lam * q.q1, nq.q2 - lam * q.q2, nq.q3 - lam * q.q3⟩
+    let sx := sumSq (pairs.map (·.1))
+    let sy := sumSq (pairs.map (·.2))
+    let u := transpose (q2mat q)
+    return Json.mkObj [
+      ("N", ofS n), ("lam", ofFloat lam), ("qnorm2", ofFloat (qnorm2 q)), ("resid2", ofFloat (qnorm2 r)),
+      ("pivots", ofFloats (pivots n (lam + delta))),
+      ("ssd_horn", ofFloat (qnorm2 q * qnorm2 q * sx + sy - 2 * lam)),
+      ("ssd_direct", ofFloat (ssdDirect (q2mat q) pairs)),
+      ("ssd_model", ofFloat (ssd ((rotmol (pairs.map (·.1)) u).zip (pairs.map (·.2))))),
+      ("det", ofFloat (det3 u)), ("utu", ofM (mulT u u)),
+      ("sample_quads", ofFloats (samples.map fun s => quad n s))]
+  | "rot" =>
+    -- model of rotmol(pts, U) and of centroid / rmsd
+    let p ← pts j "pts"
+    let w ← pts j "other"
+    let u ← floats (← field j "U")
+    match u with
+    | [a, b, c, d, e, f, g, h, i] =>
+      let m : M3 Float := ⟨a, b, c, d, e, f, g, h, i⟩
+      let cen := match centroid fops.isZero p with | none => Json.null | some c => ofP c
+      let rm := match rmsd Float.sqrt p w with | none => Json.null | some r => ofFloat r
+      return Json.mkObj [("rot", ofPs (rotmol p m)), ("spec_rot", ofPs (p.map (mulVec (transpose m)))),
+                         ("centroid", cen), ("rmsd", rm)]
+    | _ => err "expected 9 entries in U"
+  | "frag" =>
+    let frag ← pts j "frag"
+    let src ← pts j "src"
+    let tgt ← pts j "tgt"
+    return Json.mkObj [("model", fragJson (fitFragment fops.isZero Float.sqrt fitU frag src tgt)),
+                       ("old", fragJson (fitFragmentOld fops.isZero Float.sqrt fitU frag src tgt))]
+  | _ => err s!"C20: unknown op {op}"
 
 end Shelx.Drv.C20
